@@ -1,7 +1,7 @@
 (* C03 - Every request ends exactly once, with one reply, in bounded time.  Only statements here; proofs by `exact`.
    Model: Model/Proxy.v (one request of pkg/proxy/downstream.go; worker = one step per Go phase, every asynchronous handler one
    atomic guarded step).  `proxy_src` = the switches READ FROM THE SOURCE on this run (Gen/ProxyTokens.v).
-   `family` (Proofs/ProxyFam.v) = 550 configurations enumerated explicitly: 4 request shapes x retry_on x per-try x breaker x 5 pool
+   `family` (Proofs/ProxyFam.v) = 593 configurations enumerated explicitly: 4 request shapes x retry_on x per-try x breaker x 5 pool
    scripts; non-forwarding routes; every 1- and 2-filter chain over the verdicts; hijack-and-continue chains; larger budgets.
    `allowed` (Proofs/ProxyFamily.v) = the event alphabet: upstream response (status 200/503, with or without body+trailers) and reset (4 reasons)
    for ANY attempt index, per-try and global timer expiry, client disconnect, TerminateStream(403), wake-ups, worker steps.
@@ -172,7 +172,7 @@ Print Assumptions c03_timeout_reply_family.
 
 (* ---- reset reason -> status of the generated reply (table read from types.ConvertReasonToCode on this run) ---- *)
 Theorem c03_reason_to_code : forall src c why s,
-  resp_started s = false -> (why = RsGlobalTimeout \/ retry s = None) ->
+  resp_started s = false -> ((why = RsGlobalTimeout /\ reset_excludes_global src = true) \/ retry s = None) ->
   let '(s', _) := on_upstream_reset src c why s in
   (exists d o, rsp s' = Some {| r_kind := KHijack; r_code := reason_code src why; r_data := d; r_trailers := false; r_body := o |}) /\
   direct s' = true.
